@@ -673,6 +673,13 @@ func c04CheckMsg(r *vr.Report, mb bgpgen.MsgBuilder, o bgpgen.OptSet) bool {
 		c04V(r, "C04:roundtrip-value-differs:msg:"+mb.Kind+c04JSONDiffKey(m, d), cs, "message %s [%s]: JSON before %.700s after %.700s", mb.Name, o.Name, want, got)
 		return false
 	}
+	// (3b) one-directional ADD-PATH: the sender's options (mode SEND) must write the same bytes, the receiver's
+	// (mode RECEIVE) must read them; and in the opposite direction (no identifiers on the wire) likewise
+	if o.Enc != nil && mb.Kind == "update" {
+		if !c04CheckDirections(r, cs, mb, o, b) {
+			return false
+		}
+	}
 	// (4) field boundaries: gobgp's Len() of every element vs the independent reader
 	switch body := d.Body.(type) {
 	case *bgp.BGPUpdate:
@@ -780,6 +787,70 @@ func c04CheckMsg(r *vr.Report, mb bgpgen.MsgBuilder, o bgpgen.OptSet) bool {
 	} else {
 		r.Outcome("msg:" + mb.Kind + ":ok")
 	}
+	return true
+}
+
+func c04CheckDirections(r *vr.Report, cs c04Case, mb bgpgen.MsgBuilder, o bgpgen.OptSet, b []byte) bool {
+	var be, bd, x []byte
+	var d *bgp.BGPMessage
+	var err error
+	step := ""
+	p := c04Try(func() {
+		step = "serialise under SEND"
+		if be, err = mb.Build().Serialize(o.Enc...); err != nil {
+			return
+		}
+		step = "parse under RECEIVE"
+		if d, err = bgp.ParseBGPMessage(append([]byte{}, b...), o.Dec...); err != nil {
+			return
+		}
+		step = "re-serialise under SEND"
+		if x, err = d.Serialize(o.Enc...); err != nil {
+			return
+		}
+	})
+	if p != "" {
+		c04V(r, "C04:panic:"+c04PanicKey(p), cs, "message %s [%s]: one-directional ADD-PATH, %s: %s", mb.Name, o.Name, step, p)
+		return false
+	}
+	if err != nil {
+		c04V(r, "C04:addpath-direction:send->receive:"+strings.ReplaceAll(step, " ", "-")+":"+c04ErrClass(err), cs, "message %s [%s]: bytes written for a session with ADD-PATH, %s (the sender has mode SEND, the receiver mode RECEIVE): %v; bytes %s", mb.Name, o.Name, step, err, c04Hex(b))
+		return false
+	}
+	if !bytes.Equal(be, b) {
+		c04V(r, "C04:addpath-direction:send-bytes-differ", cs, "message %s [%s]: the encoder given mode SEND writes %s, given mode BOTH %s", mb.Name, o.Name, c04Hex(be), c04Hex(b))
+		return false
+	}
+	if !bytes.Equal(x, b) {
+		c04V(r, "C04:addpath-direction:receive-roundtrip-differs", cs, "message %s [%s]: parsed under mode RECEIVE and written under mode SEND: %s, sent %s", mb.Name, o.Name, c04Hex(x), c04Hex(b))
+		return false
+	}
+	// the other direction of the same session carries no path identifiers
+	p = c04Try(func() {
+		step = "serialise under RECEIVE"
+		if bd, err = mb.Build().Serialize(o.Dec...); err != nil {
+			return
+		}
+		step = "parse under SEND"
+		if d, err = bgp.ParseBGPMessage(append([]byte{}, bd...), o.Enc...); err != nil {
+			return
+		}
+		step = "re-serialise under RECEIVE"
+		x, err = d.Serialize(o.Dec...)
+	})
+	if p != "" {
+		c04V(r, "C04:panic:"+c04PanicKey(p), cs, "message %s [%s]: one-directional ADD-PATH (reverse), %s: %s", mb.Name, o.Name, step, p)
+		return false
+	}
+	if err != nil {
+		c04V(r, "C04:addpath-direction:receive->send:"+strings.ReplaceAll(step, " ", "-")+":"+c04ErrClass(err), cs, "message %s [%s]: direction without path identifiers, %s: %v; bytes %s", mb.Name, o.Name, step, err, c04Hex(bd))
+		return false
+	}
+	if !bytes.Equal(x, bd) {
+		c04V(r, "C04:addpath-direction:reverse-roundtrip-differs", cs, "message %s [%s]: direction without path identifiers: %s comes back as %s", mb.Name, o.Name, c04Hex(bd), c04Hex(x))
+		return false
+	}
+	r.Outcome("msg:update:addpath-directions-ok")
 	return true
 }
 
